@@ -466,6 +466,31 @@ pub fn run(tier: &str, seed: u64, dir: &str) {
         }
         emit_data_ops(&mut rng, &mut sink, &class, &f, &b.nwk, &b.app, b.fcnt);
     }
+    // 1b. authentic frames the crate's own creator refuses to build or cannot express (assembled by the
+    // reference encoder): FOpts together with FPort 0 and a payload, MHDR RFU bits set, every
+    // FOptsLen x a few payload lengths x all four data message types — receivers decode them all
+    let n_hand = if thorough { 6_000 } else { 400 };
+    for i in 0..n_hand {
+        let mtype = 2 + (i % 4) as u8;
+        let rfu = if rng.chance(1, 3) { (1 + rng.below(7) as u8) << 2 } else { 0 };
+        let nfo = rng.below(16) as usize;
+        let fopts = rng.bytes(nfo);
+        let fport = match rng.below(4) {
+            0 => None,
+            1 | 2 => Some(0u8),
+            _ => Some(*rng.pick(&[1u8, 223, 224, 255])),
+        };
+        let plen = if fport.is_none() { 0 } else { *rng.pick(&[0usize, 1, 15, 16, 17, 33, 100]) };
+        let payload = rng.bytes(plen);
+        let mut nwk = [0u8; 16];
+        nwk.copy_from_slice(&rng.bytes(16));
+        let mut app = [0u8; 16];
+        app.copy_from_slice(&rng.bytes(16));
+        let fcnt = pick_fcnt(&mut rng);
+        let Some(f) = crate::refcodec::build_data_any((mtype << 5) | rfu, rng.next() as u32, (rng.next() as u8) & 0xf0, fcnt, &fopts, fport, &payload, &nwk, &app) else { continue };
+        let class = format!("hand-built{}{}", if fport == Some(0) && nfo > 0 { "-fopts+port0" } else { "" }, if rfu != 0 { "-mhdr-rfu" } else { "" });
+        emit_data_ops(&mut rng, &mut sink, &class, &f, &nwk, &app, fcnt);
+    }
     // 2. 10 %: random byte strings of every length 0..=255
     let n_rand = if thorough { 5_000 } else { 256 };
     for i in 0..n_rand {
